@@ -1303,9 +1303,44 @@ leaves, hiding on/off, caps, mixed heights) built by verify_batch_circuit*, exec
 (Poseidon2 + recompose tables registered) and verified natively; oracle: run Ok => prove Ok => verify Ok; non-trivial \
 = >= 2 distinct heights or cap height > 0 or hiding; distinct on the shape";
 
+thread_local! {
+    /// widen the tallest matrix until the permutation table of the circuit is exactly full
+    static FULL_TABLE: std::cell::Cell<bool> = const { std::cell::Cell::new(false) };
+}
+
+fn perm_rows<EF: p3_field::Field>(circuit: &p3_circuit::Circuit<EF>) -> usize {
+    circuit
+        .ops
+        .iter()
+        .filter(|op| matches!(op, p3_circuit::Op::NonPrimitiveOpWithExecutor { executor, .. } if executor.op_type().as_str().starts_with("poseidon")))
+        .count()
+}
+
 fn prove_honest_cfg<C: Mc, P: crate::pv::Pv<EF = C::EF>>(c: &Case) -> Report {
-    let sh = shape_of::<C>(c);
+    let mut sh = shape_of::<C>(c);
     let index = pick(c.index, sh.max_height);
+    let mut full = false;
+    if FULL_TABLE.with(|f| f.get()) {
+        // Every extra block of sponge-rate leaf elements in the tallest matrix adds one sponge row
+        // ahead of the Merkle rows: steer the number of permutation rows to a power of two so that
+        // the table has no padding row and ends on the last Merkle row of the path.
+        let tallest = sh.heights.iter().enumerate().max_by_key(|(_, h)| **h).map(|(i, _)| i).unwrap_or(0);
+        for _ in 0..8 {
+            let com = commit_and_open::<C>(c, &sh, &[index]);
+            let o = com.openings.last().unwrap().clone();
+            let Ok(bt) = build_circuit::<C>(&sh, &o) else { break };
+            let n = perm_rows(&bt.circuit);
+            if n == 0 {
+                break;
+            }
+            if n.is_power_of_two() {
+                full = true;
+                break;
+            }
+            let pad = n.next_power_of_two() - n;
+            sh.widths[tallest] += pad * if sh.ext { 2 } else { 8 };
+        }
+    }
     let com = commit_and_open::<C>(c, &sh, &[index]);
     let o = com.openings.last().unwrap().clone();
     let (classes, nontrivial) = shape_classes::<C>(&sh, o.cap.len(), o.sibs.len());
@@ -1330,6 +1365,7 @@ fn prove_honest_cfg<C: Mc, P: crate::pv::Pv<EF = C::EF>>(c: &Case) -> Report {
     let rep = Report::pass()
         .classes(classes)
         .class(format!("cfg:{}", C::NAME))
+        .class(if full || perm_rows(&bt.circuit).is_power_of_two() { "perm-table:exactly-full(no padding row)" } else { "perm-table:padded" })
         .nontrivial(nontrivial)
         .key(hash_of(&(c.cfg % N_CFG, sh.ext, sh.hiding, sh.cap_height, &sh.heights, &sh.widths)));
     match P::prove_verify(&bt.circuit, &traces, &pk, &npo) {
@@ -1360,6 +1396,14 @@ pub fn oracle_prove_honest(c: &Case) -> Report {
         2 => prove_honest_cfg::<BbD4W16, crate::fields::Bb4>(c),
         _ => Report::discard("configuration has no prover table support in the harness"),
     }
+}
+
+/// The same, with the leaf widths steered so that the permutation table is exactly full.
+pub fn oracle_prove_honest_full(c: &Case) -> Report {
+    FULL_TABLE.with(|f| f.set(true));
+    let r = oracle_prove_honest(c);
+    FULL_TABLE.with(|f| f.set(false));
+    r
 }
 
 pub fn prove_case_strategy() -> impl Strategy<Value = Case> {
